@@ -1,0 +1,19 @@
+//go:build verif
+// +build verif
+
+package batch
+
+// VerifHook, when set, is called at the boundaries of the critical sections of
+// Func.Invoke. It is only compiled with the verif build tag and is used by the
+// verification harness to observe and to control interleavings.
+var VerifHook func(point string, group interface{}, index int)
+
+func verifAt(point string, bg *batchGroup, index int) {
+	if f := VerifHook; f != nil {
+		if bg == nil {
+			f(point, nil, index)
+		} else {
+			f(point, bg, index)
+		}
+	}
+}
